@@ -93,6 +93,27 @@ func checkRouting(e *Env, workers int, ft *flushTracker, model Model) {
 		}
 		return out
 	}
+	// the statement covers arbitrary names, tags and sources including empty ones, which the datagram
+	// path cannot produce: add a few such series for the direct checks
+	synthetic := []SeriesKey{KeyOf("counter", "", nil, ""), KeyOf("gauge", "", []string{"a:1"}, "10.0.0.9"), KeyOf("timer", "", nil, "10.0.0.9"), KeyOf("set", "", nil, ""), KeyOf("counter", "only", nil, "")}
+	withSyn := append(append([]SeriesKey(nil), keys...), synthetic...)
+	fullSyn := bucketOf(withSyn, workers)
+	for _, k := range synthetic {
+		alone := bucketOf([]SeriesKey{k}, workers)
+		if alone[k] != fullSyn[k] {
+			e.Failf("C06/bucket-depends-on-batch", "with %d shards %q goes to shard %d alone and %d in a batch of %d series", workers, k, alone[k], fullSyn[k], len(withSyn))
+		}
+		var sub []SeriesKey
+		for _, o := range withSyn {
+			if o == k || e.Bool() {
+				sub = append(sub, o)
+			}
+		}
+		if part := bucketOf(sub, workers); part[k] != fullSyn[k] {
+			e.Failf("C06/bucket-depends-on-batch", "with %d shards %q goes to shard %d in a sub-batch and %d in the full batch", workers, k, part[k], fullSyn[k])
+		}
+	}
+	e.Probe("empty-name-series")
 	full := bucketOf(keys, workers)
 	// the server's own routing must agree with Split on identity+count
 	for i, a := range keys {
